@@ -15,7 +15,7 @@ is given by its start and its SPAN (end = start + span), a point of it by its OF
 the start of the second operand by its offset from the start of the first (so that absolute positions cancel)."""
 import os, sys
 WIDTHS = [1, 2, 3, 4, 5, 6, 7, 8, 16, 32, 64]
-WIDTHS_OF = {'widen': [1, 2, 3, 4, 5, 6, 7, 8], 'widen_grow': [1, 2, 3, 4, 5, 6, 7, 8],   # wider: no answer within the lemma budget
+WIDTHS_OF = {'widen': [1, 2, 3, 4, 5, 6], 'widen_w8': [8], 'widen_grow': [1, 2, 3, 4, 5, 6, 7, 8],   # wider: no answer within the lemma budget
              'shl': [1, 2, 3, 4, 5, 6, 7, 8, 16, 32], 'lshr': [1, 2, 3, 4, 5, 6, 7, 8, 16, 32], 'ashr': [1, 2, 3, 4, 5, 6, 7, 8, 16, 32]}   # 64: no answer within the lemma budget
 OUT = os.path.join(os.path.dirname(os.path.abspath(__file__)), '..', '..', 'lemmas')
 
@@ -234,6 +234,9 @@ TRUNC = '''(define-sort BK () (_ BitVec {k}))
 (assert (not (and (not Ab) (or r_top (bvule (bvsub (lo gx) ls) (bvsub le ls))))))'''
 
 
+L['widen_w8'] = L['widen']      # same claims, separate file: the solvers' budget is per file
+
+
 def fmt(txt, w):
     txt = txt.replace('$A', A).replace('$B', B)
     wmax = '(bvshl one (_ bv%d %d))' % ((w - 3) if w > 3 else (w - 1), w)
@@ -249,7 +252,7 @@ def main():
         out = ['; GENERATED by units/wrapped_interval/gen_lemmas.py -- do not edit; see the generator for the correspondence with spec.h.',
                '; Lemma file for sp_%s.  Widths: %s.  Every (check-sat) must answer unsat.' % (name, ','.join(map(str, WIDTHS)))]
         ws = WIDTHS_OF.get(name, WIDTHS)
-        out[1] = '; Lemma file for sp_%s.  Widths: %s.  Every (check-sat) must answer unsat.' % (name, ','.join(map(str, ws)))
+        out[1] = '; Lemma file for sp_%s.  Widths: %s.  Every (check-sat) must answer unsat.' % (name.replace('_w8', '').replace('_grow', ' (growth)'), ','.join(map(str, ws)))
         for w in ws:
             for title, body in claims:
                 out.append('(reset) (set-logic QF_BV) ; ---- width %d: %s' % (w, title))
